@@ -8,13 +8,21 @@ sys.path.insert(0, os.path.dirname(os.path.abspath(__file__)))
 sys.path.insert(0, os.path.dirname(os.path.dirname(os.path.abspath(__file__))))
 import vlib
 import lpgen
-from translator import gen_copy
+from translator import gen_copy, gen_members
 
-HARNESSES = ["C17"]
+HARNESSES = [dict(name="C17", deps=[os.path.join(vlib.ROOT, "harness", "gen", "C17_members.inc")])]
 MODEL = False
 
 
+MEMBERS_INC = os.path.join(vlib.ROOT, "harness", "gen", "C17_members.inc")
+
+
+def pregenerate():
+    gen_members.generate(MEMBERS_INC)
+
+
 def regenerate():
+    gen_members.generate(MEMBERS_INC)
     return gen_copy.generate(os.path.join(vlib.COQ, "gen", "Gen_Copy.v"))
 
 
@@ -27,7 +35,7 @@ def main():
         bad = [n for n, h in info["pointers"].items() if h == "HAssign"]
         for sig, what, rp, ni in ck.violations:
             rp["unsafe_members"] = bad
-    exe = vlib.build_harness("C17")
+    exe = vlib.build_harness("C17", deps=[MEMBERS_INC])
     r = ck.rng
     nlp = 70 if ck.tier == "quick" else 1500
     nmax = 10 if ck.tier == "quick" else 25
@@ -111,6 +119,19 @@ def main():
                 if d.get("equal") != "none":
                     ck.violation("copy-not-equal:%s:%s" % (d.get("mode"), d.get("equal")),
                                  "a %s copy taken at point '%s' differs from its source in %s" % (d.get("mode"), d.get("point"), d.get("equal")), rp)
+                if d.get("members", "none") != "none":
+                    ck.violation("copy-member-not-copied:%s" % d.get("members"),
+                                 "a %s copy differs from its source in the solver members %s" % (d.get("mode"), d.get("members")), rp)
+                if d.get("solves_like_source", "none") != "none":
+                    ck.count("twin-solve-differs:" + d.get("point", "?"))
+                # only for copies taken before any solve: there is no hidden solve state (random stream position, pricer weights,
+                # scaling state), so a copy must solve exactly like an identically built object
+                if d.get("solves_like_source", "none") != "none" and d.get("point") == "nosolve":
+                    tag = "persistent-scaling" if (cfg.get("scaler", 2) != 0 and cfg.get("persistentscaling", 1) != 0 and d.get("point") != "nosolve") else \
+                          ("starter=3" if cfg.get("starter") == 3 else "other")
+                    ck.violation("copy-solves-differently:%s:%s" % (tag, d.get("point")),
+                                 "a %s copy (taken at '%s'), solved from a cleared basis, differs from an identically built twin of its source in %s" % (
+                                     d.get("mode"), d.get("point"), d.get("solves_like_source")), rp)
                 if d.get("source_unchanged") != "none":
                     ck.violation("copy-not-independent:source-changed:%s" % d.get("source_unchanged"),
                                  "mutating (%s) the copy changed the source in %s" % (d.get("mut"), d.get("source_unchanged")), rp)
